@@ -11,20 +11,27 @@ A *trace* is the list of I/O operations the tool performed, in the vocabulary
 of coq/Model/SaveProtocol.v:
 
     (exists R) (remove R) (copy2 R R) (mktmp) (openread R) (copyobj R R)
-    (opentrunc R) (dump R) (dumps)
+    (opentrunc R) (dump R) (render) (write R)
 
 with R one of target | bak | output | tmp | other | stdout.  Operations on
 `other` files (the -f value file, key files, ...) and on stdout are recorded
-with that role and never faulted.
+with that role and never faulted.  `(render)` is a serialisation into memory
+(json.dumps, or a dump / dump_all / json.dump into a StringIO that is not
+sys.stdout); `(write R)` is a write() the command module itself performs on a
+tracked file it opened for writing (writes made on its behalf by a dumper or by
+copyfileobj belong to that call).
 
-Fault injection: `fault=(k, mode, kind)` makes the k-th (0-based) recorded
-operation among the faultable ones fail.  mode "before": the operation raises
-without having done anything.  mode "mid": the operation performs the
-pessimistic half of its effect and then raises (truncating open: the file is
-truncated; copy2/copyfileobj: half of the bytes arrive; remove: the file is
-gone yet an error is reported; dump: half of the text is written).  kind
-"oserror" raises OSError(EIO); kind "assert" (dump only) raises AssertionError,
-the failure yaml-set's save_to_yaml_file has a restore path for.
+Fault injection: `fault=(k, mode, kind)` - or a list of such triples - makes
+the k-th (0-based) recorded operation among the faultable ones fail; every
+triple fires at most once, at its own position (positions count every
+faultable operation of the run, the failed ones included).  mode "before": the
+operation raises without having done anything.  mode "mid": the operation
+performs the pessimistic half of its effect and then raises (truncating open:
+the file is truncated; copy2/copyfileobj: half of the bytes arrive; remove: the
+file is gone yet an error is reported; dump / write: half of the text is
+written).  kind: "oserror" OSError(EIO); "assert" AssertionError; "typeerror",
+"valueerror", "recursion" - exceptions that are neither; "interrupt"
+KeyboardInterrupt (a BaseException that `except Exception` does not catch).
 """
 import errno
 import io
@@ -49,13 +56,55 @@ class FakeStdin(io.StringIO):
         return self._tty
 
 
+class _WriteProxy:
+    """A file opened for writing on a tracked path: write() calls made directly
+    by the command module are operations of their own."""
+
+    def __init__(self, ffs, f, role):
+        object.__setattr__(self, "_ffs", ffs)
+        object.__setattr__(self, "_f", f)
+        object.__setattr__(self, "_role", role)
+
+    def __getattr__(self, name):
+        return getattr(self._f, name)
+
+    def __enter__(self):
+        self._f.__enter__()
+        return self
+
+    def __exit__(self, *a):
+        return self._f.__exit__(*a)
+
+    def __iter__(self):
+        return iter(self._f)
+
+    def write(self, data):
+        ffs = self._ffs
+        if ffs._depth == 0:
+            inj = ffs._step("(write %s)" % self._role)
+            if inj:
+                if inj[0] == "mid":
+                    self._f.write(data[:len(data) // 2])
+                    self._f.flush()
+                ffs._raise(inj[1])
+        return self._f.write(data)
+
+
 class FaultFS:
     def __init__(self, mod, roles, fault=None):
         """mod: the command module; roles: {absolute path: role name};
-        fault: None | (k, mode, kind)."""
+        fault: None | (k, mode, kind) | a list of such triples."""
         self.mod = mod
         self.roles = dict(roles)
-        self.fault = fault
+        if fault is None:
+            self.faults = []
+        elif fault and isinstance(fault[0], (tuple, list)):
+            self.faults = [tuple(f) for f in fault if f is not None]
+        else:
+            self.faults = [tuple(fault)]
+        self.nfired = 0
+        self.fired_ops = []   # the operations the faults hit, in order
+        self._depth = 0       # > 0 while a wrapped call does its real work
         self.trace = []
         self.nfaultable = 0
         self.fired = False
@@ -76,7 +125,18 @@ class FaultFS:
     def role_of_handle(self, f):
         if f is sys.stdout:
             return "stdout"
+        if isinstance(f, io.StringIO):
+            return "mem"
         return self.handles.get(id(f), "other")
+
+    def _real(self, fn):
+        """Run the real work of a wrapped call; writes it makes on a tracked
+        file are part of it, not operations of the command module."""
+        self._depth += 1
+        try:
+            return fn()
+        finally:
+            self._depth -= 1
 
     def _note(self, f, role):
         self.handles[id(f)] = role
@@ -89,15 +149,27 @@ class FaultFS:
             return None
         k = self.nfaultable
         self.nfaultable += 1
-        if self.fault is not None and not self.fired and self.fault[0] == k:
-            self.fired = True
-            return (self.fault[1], self.fault[2])
+        for i, ft in enumerate(self.faults):
+            if ft is not None and ft[0] == k:
+                self.faults[i] = None
+                self.fired = True
+                self.nfired += 1
+                self.fired_ops.append(line)
+                return (ft[1], ft[2])
         return None
 
     @staticmethod
     def _raise(kind):
         if kind == "assert":
             raise AssertionError("injected")
+        if kind == "typeerror":
+            raise TypeError("injected")
+        if kind == "valueerror":
+            raise ValueError("injected")
+        if kind == "recursion":
+            raise RecursionError("injected")
+        if kind == "interrupt":
+            raise KeyboardInterrupt()
         raise OSError(errno.EIO, "injected I/O error")
 
     # ---- wrappers ----------------------------------------------------------
@@ -111,6 +183,8 @@ class FaultFS:
                 _builtin_open(file, mode, *a, **kw).close()
             self._raise(inj[1])
         f = _builtin_open(file, mode, *a, **kw)
+        if tracked and writing:
+            f = _WriteProxy(self, f, role)
         self._note(f, role)
         return f
 
@@ -129,10 +203,9 @@ class FaultFS:
         if inj:
             if inj[0] == "mid":
                 data = fsrc.read()
-                fdst.write(data[:len(data) // 2])
-                fdst.flush()
+                self._real(lambda: (fdst.write(data[:len(data) // 2]), fdst.flush()))
             self._raise(inj[1])
-        return shutil.copyfileobj(fsrc, fdst, *a, **kw)
+        return self._real(lambda: shutil.copyfileobj(fsrc, fdst, *a, **kw))
 
     def w_remove(self, path, *a, **kw):
         inj = self._step("(remove %s)" % self.role_of_path(path))
@@ -159,14 +232,19 @@ class FaultFS:
 
     def _dump_like(self, real, text_of, stream, label="dump"):
         role = self.role_of_handle(stream)
-        inj = self._step("(%s %s)" % (label, role), faultable=role in ("target", "bak", "output"))
+        if role == "mem":
+            inj = self._step("(render)")
+        else:
+            inj = self._step("(%s %s)" % (label, role), faultable=role in ("target", "bak", "output"))
         if inj:
-            if inj[0] == "mid":
-                text = text_of()
-                stream.write(text[:len(text) // 2])
-                stream.flush()
+            if inj[0] == "mid" and role != "mem":
+                try:
+                    text = text_of()
+                except Exception:  # noqa  (a document the serialiser refuses: nothing got written)
+                    text = ""
+                self._real(lambda: (stream.write(text[:len(text) // 2]), stream.flush()))
             self._raise(inj[1])
-        return real()
+        return self._real(real)
 
     def install(self):
         mod = self.mod
@@ -196,7 +274,7 @@ class FaultFS:
                                      lambda: _json.dumps(obj, *a, **kw), fp)
 
             def j_dumps(obj, *a, **kw):
-                inj = me._step("(dumps)")
+                inj = me._step("(render)")
                 if inj:
                     me._raise(inj[1])
                 return _json.dumps(obj, *a, **kw)
@@ -296,4 +374,4 @@ def run_tool(mod, argv, roles=None, fault=None, stdin_text=None, observe_io=True
         sys.argv, sys.stdout, sys.stderr, sys.stdin, P.stdin = old
     return {"status": status, "crash": crash, "trace": ffs.trace, "nfaultable": ffs.nfaultable,
             "stdout": out.getvalue(), "stderr": err.getvalue(), "fired": ffs.fired, "exc": exc,
-            "dumped": ffs.dumped}
+            "dumped": ffs.dumped, "fired_ops": ffs.fired_ops}
